@@ -226,5 +226,5 @@ func envCases() []*EnvCase {
 }
 
 func envClass(ec *EnvCase, sig string) string {
-	return "env:" + sig + ":" + structShape(ec.Spec, ec.Doc)
+	return "env:" + sig + ":" + structShape(plainNames(ec.Spec), lowerFieldKeys(ec.Doc))
 }
